@@ -82,6 +82,23 @@ pub fn vx_split_char<'a>(s: &'a str, c: char) -> (r: Vec<&'a str>)
     s.split(c).collect()
 }
 
+/// the items `s.split(sep)` yields for a string separator: for a one-character separator the same as for that character;
+/// other separators are not specified here
+pub uninterp spec fn split_str_other(s: Seq<char>, sep: Seq<char>) -> Seq<Seq<char>>;
+pub open spec fn split_str_spec(s: Seq<char>, sep: Seq<char>) -> Seq<Seq<char>> {
+    if sep.len() == 1 { split_spec(s, sep[0]) } else { split_str_other(s, sep) }
+}
+
+// TRUSTED[split-str]: the items of `s.split(sep)` for a &str pattern; with a one-character separator they are split_spec(s, that character)
+// (std doc, as for vx_split_char). Rule E18 replaces `X.split(S).map(f).collect()` by a loop over this vector.
+#[verifier::external_body]
+pub fn vx_split_str<'a>(s: &'a str, sep: &str) -> (r: Vec<&'a str>)
+    ensures r@.len() == split_str_spec(s@, sep@).len(),
+        forall|i: int| 0 <= i < r@.len() ==> (#[trigger] r@[i])@ == split_str_spec(s@, sep@)[i],
+{
+    s.split(sep).collect()
+}
+
 // TRUSTED[option-get-or-insert-with]: std doc: "Inserts a value computed from f into the option if it is None, then returns a mutable
 // reference to the contained value."
 #[verifier::allow(undeclared_external_trait)]
